@@ -31,11 +31,11 @@ FUNC_CHECKS = {
     "pyspike/cython/cython_add.pyx": {None: ["C12"]},
     "pyspike/cython/cython_get_tau.pyx": {None: ["C12"]},
     "pyspike/cython/cython_directionality.pyx": {None: ["C12"]},
-    "pyspike/generic.py": {None: ["C06", "C14", "C05", "C15"]},
-    "pyspike/isi_distance.py": {None: ["C05", "C14", "C01"]},
-    "pyspike/spike_distance.py": {None: ["C05", "C14", "C02"]},
-    "pyspike/spike_sync.py": {"filter_by_spike_sync": ["C17"], None: ["C05", "C06", "C14", "C16"]},
-    "pyspike/spike_directionality.py": {None: ["C04", "C14", "C18"]},
+    "pyspike/generic.py": {None: ["C06", "C14", "C05", "C15", "C13"]},
+    "pyspike/isi_distance.py": {None: ["C05", "C14", "C01", "C13"]},
+    "pyspike/spike_distance.py": {None: ["C05", "C14", "C02", "C13"]},
+    "pyspike/spike_sync.py": {"filter_by_spike_sync": ["C17"], None: ["C05", "C06", "C14", "C16", "C13"]},
+    "pyspike/spike_directionality.py": {None: ["C04", "C14", "C18", "C16", "C13"]},
     "pyspike/DiscreteFunc.py": {None: ["C11", "C05"]},
     "pyspike/PieceWiseConstFunc.py": {None: ["C10", "C09"]},
     "pyspike/PieceWiseLinFunc.py": {None: ["C10", "C09"]},
@@ -43,7 +43,7 @@ FUNC_CHECKS = {
                           "merge_spike_trains": ["C20"], "generate_poisson_spikes": ["C20"], None: ["C19"]},
     "pyspike/isi_lengths.py": {None: ["C15"]},
     "pyspike/psth.py": {None: ["C20"]},
-    "pyspike/SpikeTrain.py": {None: ["C19", "C13", "C01"]},
+    "pyspike/SpikeTrain.py": {None: ["C19", "C13", "C01", "C17"]},
 }
 
 OPS = [
